@@ -57,6 +57,7 @@ class Run:
         self.failures: list[dict[str, Any]] = []
         self.errors: list[str] = []
         self.truncated = False
+        self.classifier: Optional[Callable[[str, Any], Optional[str]]] = None
 
     # -- reporting -----------------------------------------------------------------------
     def out_of_time(self) -> bool:
@@ -80,9 +81,17 @@ class Run:
                 self.samples.append({"clause": clause, "case": case})
         if not ok:
             stats["failures"] += 1
-            mine = [f for f in self.failures if f["clause"] == clause]
+            # classify BEFORE capping, so that many failures of a known finding at a clause cannot
+            # crowd out an unknown failure at the same clause
+            known = None
+            if self.classifier is not None:
+                try:
+                    known = self.classifier(clause, case)
+                except Exception:  # pylint: disable=broad-except
+                    self.error(f"classifier crashed on {case!r}:\n{traceback.format_exc()}")
+            mine = [f for f in self.failures if f["clause"] == clause and f.get("known") == known]
             if len(mine) < MAX_FAILS_PER_CLAUSE:
-                self.failures.append({"clause": clause, "case": case, "detail": str(detail)[:2000]})
+                self.failures.append({"clause": clause, "case": case, "detail": str(detail)[:2000], "known": known})
         return ok
 
     def count(self, n: int = 1) -> None:
@@ -117,7 +126,8 @@ class Run:
             mine["evaluations"] += stats["evaluations"]
             mine["failures"] += stats["failures"]
         for failure in other["failures"]:
-            same = [f for f in self.failures if f["clause"] == failure["clause"]]
+            same = [f for f in self.failures if f["clause"] == failure["clause"]
+                    and f.get("known") == failure.get("known")]
             if len(same) < MAX_FAILS_PER_CLAUSE:
                 self.failures.append(failure)
         self.errors.extend(other["errors"])
@@ -129,10 +139,25 @@ def _worker(args: tuple[str, str, int, int, Any, float]) -> dict[str, Any]:
     run = Run(tier, seed, index, deadline)
     try:
         module = importlib.import_module(f"bounded.{prop}")
+        run.classifier = make_classifier(prop, module)
         module.run_shard(shard, run)
     except Exception:  # pylint: disable=broad-except
         run.error(f"shard {index} crashed:\n{traceback.format_exc()}")
     return run.to_dict()
+
+
+def make_classifier(prop: str, module: Any) -> Callable[[str, Any], Optional[str]]:
+    """clause, case -> id of the OPEN listed finding whose class contains the failure, else None"""
+    findings = [f for f in load_findings(prop) if f.get("status") == "open"]
+    classes: dict[str, Callable[[str, Any], bool]] = getattr(module, "FINDING_CLASSES", {})
+    active = [(f["id"], classes[f["id"]]) for f in findings if f["id"] in classes]
+
+    def classify(clause: str, case: Any) -> Optional[str]:
+        for fid, pred in active:
+            if pred(clause, case):
+                return fid
+        return None
+    return classify
 
 
 def load_findings(prop: str) -> list[dict[str, Any]]:
@@ -162,24 +187,10 @@ def execute(prop: str, tier: str, seed: int, budget_s: float, processes: int = 1
 
     # classify failures against the committed known findings
     findings = load_findings(prop)
-    classes: dict[str, Callable[[str, Any], bool]] = getattr(module, "FINDING_CLASSES", {})
     known_seen: dict[str, int] = {}
     unknown: list[dict[str, Any]] = []
     for failure in total.failures:
-        matched = None
-        for finding in findings:
-            if finding.get("status") != "open":
-                continue  # a fixed entry suppresses nothing
-            pred = classes.get(finding["id"])
-            if pred is None:
-                continue
-            try:
-                if pred(failure["clause"], failure["case"]):
-                    matched = finding["id"]
-                    break
-            except Exception:  # pylint: disable=broad-except
-                total.error(f"classifier {finding['id']} crashed on {failure['case']!r}:\n"
-                            f"{traceback.format_exc()}")
+        matched = failure.get("known")   # classified in the worker; a fixed entry suppresses nothing
         if matched:
             known_seen[matched] = known_seen.get(matched, 0) + 1
         else:
